@@ -16,6 +16,7 @@ ENTRY(mat4_cast) { out_mat(c, glm::mat4_cast(Q0)); }
 ENTRY(mat3_cast_mul_v3) { auto q = Q0; auto v = in_vec<3, TY>(c, 1); out_vec(c, glm::mat3_cast(q) * v); }
 ENTRY(quat_cast_m3) { auto m = in_mat<3, 3, TY>(c, 0); out_qua(c, glm::quat_cast(m)); }
 ENTRY(quat_cast_of_mat3_cast) { out_qua(c, glm::quat_cast(glm::mat3_cast(Q0))); }
+ENTRY(quat_cast_of_mat4_cast) { out_qua(c, glm::quat_cast(glm::mat4_cast(Q0))); }
 ENTRY(quat_cast_m4) { auto m = in_mat<4, 4, TY>(c, 0); out_qua(c, glm::quat_cast(m)); }
 ENTRY(q_mul_q) { auto a = Q0; auto b = in_qua<TY>(c, 1); out_qua(c, a * b); }
 ENTRY(mat3_cast_of_product) { auto a = Q0; auto b = in_qua<TY>(c, 1); out_mat(c, glm::mat3_cast(a * b)); }
@@ -33,6 +34,7 @@ ENTRY(div_q) { auto a = Q0; TY s = c.template in<TY>(1, 0); out_qua(c, a / s); }
 ENTRY(angle_q) { c.out(glm::angle(Q0)); }
 ENTRY(axis_q) { out_vec(c, glm::axis(Q0)); }
 ENTRY(angleAxis) { TY a = c.template in<TY>(0, 0); auto v = in_vec<3, TY>(c, 1); out_qua(c, glm::angleAxis(a, v)); }
+ENTRY(angleAxis_of_angle_axis) { auto q = Q0; out_qua(c, glm::angleAxis(glm::angle(q), glm::axis(q))); }
 ENTRY(rotate_q) { auto q = Q0; TY a = c.template in<TY>(1, 0); auto v = in_vec<3, TY>(c, 2); out_qua(c, glm::rotate(q, a, v)); }
 ENTRY(eulerAngles_q) { out_vec(c, glm::eulerAngles(Q0)); }
 ENTRY(roll_q) { c.out(glm::roll(Q0)); }
@@ -40,6 +42,7 @@ ENTRY(pitch_q) { c.out(glm::pitch(Q0)); }
 ENTRY(yaw_q) { c.out(glm::yaw(Q0)); }
 ENTRY(quat_from_euler) { auto e = in_vec<3, TY>(c, 0); out_qua(c, glm::qua<TY>(e)); }
 ENTRY(quat_from_two_vectors) { auto u = in_vec<3, TY>(c, 0); auto v = in_vec<3, TY>(c, 1); out_qua(c, glm::qua<TY>(u, v)); }
+ENTRY(two_vectors_rotate_u) { auto u = in_vec<3, TY>(c, 0); auto v = in_vec<3, TY>(c, 1); out_vec(c, glm::qua<TY>(u, v) * u); }
 ENTRY(toMat3_gtx) { out_mat(c, glm::toMat3(Q0)); }
 ENTRY(toMat4_gtx) { out_mat(c, glm::toMat4(Q0)); }
 ENTRY(gtx_rotate_v3) { auto q = Q0; auto v = in_vec<3, TY>(c, 1); out_vec(c, glm::rotate(q, v)); }
